@@ -17,7 +17,7 @@ def wedge_oracle(ix: Index, scn: dict) -> list[Violation]:
     # replay the history, tracking the model
     conn_state: dict = {}
     latest: str | None = None
-    inflight: set = set()
+    inflight: dict = {}
     ops_by_start = {op.s0: op for op in ix.ops}
     ops_by_end = {op.s1: op for op in ix.ops if op.s1 is not None}
     writes_by_seq = sorted(seq for lst in ix.tr_writes.values() for seq, *_ in lst)
@@ -32,17 +32,19 @@ def wedge_oracle(ix: Index, scn: dict) -> list[Violation]:
             st = conn_state.get(latest) if latest else None
             idle = not inflight and (latest is None or st == "CLOSED")
             alive = st == "CONNECTED"
-            op_model = {"idle": idle, "alive": alive, "state": st}
+            # an attempt of another caller that is still running on a connection that has not been closed
+            busy = [k for k, o in inflight.items() if o.conn is not None and conn_state.get(o.conn) not in (None, "CLOSED", "CONNECTED")]
+            op_model = {"idle": idle, "alive": alive, "state": st, "busy": busy}
             op.__dict__ if False else None
             setattr_ok = True
             MODEL[id(op)] = op_model
             if op.do in PHASE:
-                inflight.add((op.actor, op.i))
+                inflight[(op.actor, op.i)] = op
         elif kind == "op_end":
             op = ops_by_end.get(seq)
             if op is None:
                 continue
-            inflight.discard((op.actor, op.i))
+            inflight.pop((op.actor, op.i), None)
             m = MODEL.pop(id(op), None)
             if m is None:
                 continue
@@ -53,6 +55,8 @@ def wedge_oracle(ix: Index, scn: dict) -> list[Violation]:
                     out.append(Violation("wedged", op.do, f"{op.actor}[{op.i}] {op.do}() refused with {err.get('text')!r} although no attempt was in progress and no session alive (latest connection state: {m['state']})"))
                 if m["alive"] and not already:
                     out.append(Violation("accepted-while-alive", op.do, f"{op.actor}[{op.i}] {op.do}() was not refused although a session was alive"))
+                elif m["busy"] and not already:
+                    out.append(Violation("accepted-while-attempt-in-progress", op.do, f"{op.actor}[{op.i}] {op.do}() was not refused although the attempt {m['busy'][0]} of another caller was still in progress (its connection was {m['state']})"))
             elif op.do in WORK:
                 if not m["alive"]:
                     if op.ok:
@@ -108,7 +112,12 @@ def gen_c19(rng: random.Random) -> dict:
         else:
             events.append({"at": trig, "do": "start_actor", "actor": "closer", "phase": pick(rng, ["pre", "post"])})
     actors = [{"id": "a0", "at": {"t": 0.0}, "steps": steps}, {"id": "closer", "at": "manual", "steps": [{"do": "disconnect"}]}]
+    extra: dict = {}
+    if rng.random() < 0.25:
+        # the application reconnects from inside its stop callback, at once or after yielding to the loop
+        extra["on_stop_do"] = {"do": pick(rng, ["start", "connect"]), "yields": pick(rng, [0, 0, 1, 2]), "max": pick(rng, [1, 2]), "login": rng.random() < 0.5}
     return {
+        **extra,
         "family": "client-history",
         "knobs": gen_knobs(rng),
         "client": client,
